@@ -224,8 +224,15 @@ class Model:
             return []
         data = '\n'.join(lines) + '\n'
         if self.exe:
-            p = subprocess.run([self.exe], input=data, stdout=subprocess.PIPE,
-                               stderr=subprocess.PIPE, text=True, timeout=timeout)
+            for attempt in range(5):
+                try:
+                    p = subprocess.run([self.exe], input=data, stdout=subprocess.PIPE,
+                                       stderr=subprocess.PIPE, text=True, timeout=timeout)
+                    break
+                except (FileNotFoundError, OSError):      # the driver is being re-linked by another run
+                    if attempt == 4:
+                        raise
+                    time.sleep(3)
         else:
             p = subprocess.run(['lake', 'env', 'lean', '--run', 'Driver.lean'], cwd=LEAN_DIR,
                                input=data, stdout=subprocess.PIPE, stderr=subprocess.PIPE,
